@@ -26,6 +26,11 @@ def run(ctx):
   rule_state(ctx)
   rule_entry(ctx)
   rule_fisher(ctx)
+  # "large matrix rank ... report failure for the xorshift family": the documented detecting matrix (2048 x 2048 at 2^22 bits, 512 x 512 at 2^18)
+  # is the largest that fits exactly, so every fitting size must be tested (shared with C12)
+  from . import c12
+  ctx.borrow(c12.rule_ladder, "R-C13-RANK")
+  ctx.expect("R-C13-RANK", 3, "loop condition, guard agreement, matrix shape")
   ctx.expect("R-C13-STATE", 7, "seven clauses of Run")
   ctx.expect("R-C13-ENTRY", 5, "TESTS, registry, Failed, two entry points")
   ctx.expect("R-C13-FISHER", 4, "four cases")
